@@ -653,5 +653,341 @@ theorem popitem_spec {s : OMD K V} (h : Inv s) :
     subst h2
     exact ⟨hp.1, by simp [h1]⟩
 
+theorem updateExtend_spec {s : OMD K V} (h : Inv s) (E : Arg K V) (F : List (K × V)) :
+    Inv (s.updateExtend E F).1 ∧ (s.updateExtend E F).2 = .unit ∧
+    (s.updateExtend E F).1.cells = Spec.updateExtend s.cells (absArg E) F := by
+  unfold OMD.updateExtend Spec.updateExtend
+  cases E with
+  | self =>
+    simp only [items_spec h, absArg]
+    have h1 := addAll_spec h (Spec.items s.cells)
+    have h2 := addAll_spec h1.1 F
+    exact ⟨h2.1, trivial, by rw [h2.2, h1.2]⟩
+  | omd t =>
+    have h1 := addAll_spec h t.cells
+    have h2 := addAll_spec h1.1 F
+    exact ⟨h2.1, rfl, by simp only [absArg]; rw [h2.2, h1.2]⟩
+  | mapping m =>
+    have h1 := addAll_spec h m
+    have h2 := addAll_spec h1.1 F
+    exact ⟨h2.1, rfl, by simp only [absArg]; rw [h2.2, h1.2]⟩
+  | pairs l =>
+    have h1 := addAll_spec h l
+    have h2 := addAll_spec h1.1 F
+    exact ⟨h2.1, rfl, by simp only [absArg]; rw [h2.2, h1.2]⟩
+
+theorem new_spec (E : Option (Arg K V)) (F : List (K × V)) :
+    Inv (OMD.new E F).1 ∧ (OMD.new E F).2 = .unit ∧
+    (OMD.new E F).1.cells = Spec.new (E.map absArg) F := by
+  unfold OMD.new Spec.new
+  cases E with
+  | none =>
+    have := setAll_spec (inv_empty (K := K) (V := V)) F
+    exact ⟨this.1, rfl, by simpa [OMD.empty] using this.2⟩
+  | some E =>
+    have h1 := updateExtend_spec (inv_empty (K := K) (V := V)) E []
+    generalize hq : (OMD.empty : OMD K V).updateExtend E [] = q at h1 ⊢
+    obtain ⟨q1, q2⟩ := q
+    simp only at h1
+    obtain ⟨i1, o1, c1⟩ := h1
+    subst o1
+    have h2 := setAll_spec i1 F
+    simp only [Option.map_some, hq]
+    exact ⟨h2.1, trivial, by rw [h2.2, c1]; rfl⟩
+
+theorem copy_spec (s : OMD K V) : Inv s.copy ∧ s.copy.cells = s.cells := fromPairs_spec s.cells
+
+/-! ### histories -/
+
+def absH (st : HState K V) : Spec.HState K V := ⟨st.s.cells, st.t.cells⟩
+
+structure HInv (st : HState K V) : Prop where
+  s : Inv st.s
+  t : Inv st.t
+
+theorem resolve_spec (st : HState K V) (hi : HInv st) (E : HArg K V) :
+    ArgInv (E.resolve st) ∧ absArg (E.resolve st) = Spec.resolve (absH st) E := by
+  cases E with
+  | self => exact ⟨trivial, rfl⟩
+  | regT => exact ⟨hi.t, rfl⟩
+  | fresh l => exact ⟨(fromPairs_spec l).1, by simp [HArg.resolve, absArg, Spec.resolve, (fromPairs_spec l).2]⟩
+  | mapping m => exact ⟨trivial, rfl⟩
+  | pairs l => exact ⟨trivial, rfl⟩
+
+theorem withS_spec (st : HState K V) (hi : HInv st) (r : OMD K V × Out K V) (q : List (K × V) × Out K V)
+    (h : Inv r.1 ∧ (r.1.cells, r.2) = q) :
+    HInv (st.withS r).1 ∧ absH (st.withS r).1 = (Spec.withS (absH st) q).1 ∧
+      (st.withS r).2 = (Spec.withS (absH st) q).2 := by
+  obtain ⟨h1, h2⟩ := h
+  subst h2
+  exact ⟨⟨h1, hi.t⟩, rfl, rfl⟩
+
+/-- one step of a history refines the list-of-pairs step: invariant kept, abstraction commutes,
+    same return value -/
+theorem hstep_spec (st : HState K V) (hi : HInv st) (op : HOp K V) :
+    HInv (hstep st op).1 ∧ absH (hstep st op).1 = (Spec.hstep (absH st) op).1 ∧
+      (hstep st op).2 = (Spec.hstep (absH st) op).2 := by
+  cases op with
+  | new E F =>
+    simp only [hstep, Spec.hstep]
+    have hA' : (E.map (HArg.resolveNew st)).map absArg = E.map (Spec.resolveNew (absH st)) := by
+      cases E with
+      | none => rfl
+      | some E => cases E <;> simp [absArg, HArg.resolveNew, Spec.resolveNew, HArg.resolve, Spec.resolve, absH, (fromPairs_spec _).2]
+    have := new_spec (E.map (HArg.resolveNew st)) F
+    rw [hA'] at this
+    generalize OMD.new (E.map (HArg.resolveNew st)) F = q at this ⊢
+    obtain ⟨q1, q2⟩ := q
+    obtain ⟨i1, o1, c1⟩ := this
+    simp only at i1 o1 c1
+    subst o1
+    exact ⟨⟨i1, hi.t⟩, by simp [HState.withS, absH, c1], rfl⟩
+  | add k v => exact ⟨⟨inv_add hi.s k v, hi.t⟩, rfl, rfl⟩
+  | addlist k vs =>
+    refine ⟨⟨inv_addlist hi.s k vs, hi.t⟩, ?_, rfl⟩
+    simp only [hstep, Spec.hstep, absH, OMD.addlist]
+    split
+    · rename_i he; simp only [List.isEmpty_iff] at he; subst he; simp
+    · rfl
+  | setitem k v =>
+    refine ⟨⟨inv_setitem hi.s k v, hi.t⟩, ?_, rfl⟩
+    simp only [hstep, Spec.hstep, absH, setitem_cells hi.s]; rfl
+  | delitem k => exact withS_spec st hi _ _ (delitem_spec hi.s k)
+  | update E F =>
+    obtain ⟨a1, a2⟩ := resolve_spec st hi E
+    have := update_spec hi.s (E.resolve st) a1 F
+    refine ⟨⟨this.1, hi.t⟩, ?_, rfl⟩
+    simp only [hstep, Spec.hstep, absH, this.2, a2]
+  | updateExtend E F =>
+    obtain ⟨a1, a2⟩ := resolve_spec st hi E
+    have := updateExtend_spec hi.s (E.resolve st) F
+    simp only [hstep, Spec.hstep]
+    generalize st.s.updateExtend (E.resolve st) F = q at this ⊢
+    obtain ⟨q1, q2⟩ := q
+    obtain ⟨i1, o1, c1⟩ := this
+    simp only at i1 o1 c1
+    subst o1
+    exact ⟨⟨i1, hi.t⟩, by simp [HState.withS, absH, c1, a2], rfl⟩
+  | setdefault k v => exact withS_spec st hi _ _ (setdefault_spec hi.s k v)
+  | pop k d => exact withS_spec st hi _ _ (pop_spec hi.s k d)
+  | popall k d => exact withS_spec st hi _ _ (popall_spec hi.s k d)
+  | poplast k d => exact withS_spec st hi _ _ (poplast_spec hi.s k d)
+  | popitem => exact withS_spec st hi _ _ (popitem_spec hi.s)
+  | clear => exact ⟨⟨inv_empty, hi.t⟩, rfl, rfl⟩
+  | copyToT => exact ⟨⟨hi.s, (copy_spec st.s).1⟩, by simp [hstep, Spec.hstep, absH, (copy_spec st.s).2], rfl⟩
+  | copyToS => exact ⟨⟨(copy_spec st.s).1, hi.t⟩, by simp [hstep, Spec.hstep, absH, (copy_spec st.s).2], rfl⟩
+  | swap => exact ⟨⟨hi.t, hi.s⟩, rfl, rfl⟩
+
+theorem hinv_init : HInv (HState.init : HState K V) := ⟨inv_empty, inv_empty⟩
+
+/-- whole histories: after every prefix the states correspond and the return values agree -/
+theorem hrun_spec (st : HState K V) (hi : HInv st) (ops : List (HOp K V)) :
+    (hrun st ops).map (fun r => (absH r.1, r.2)) = Spec.hrun (absH st) ops ∧
+    ∀ r ∈ hrun st ops, HInv r.1 := by
+  induction ops generalizing st with
+  | nil => simp [hrun, Spec.hrun]
+  | cons op ops ih =>
+    obtain ⟨h1, h2, h3⟩ := hstep_spec st hi op
+    have := ih (hstep st op).1 h1
+    simp only [hrun, Spec.hrun, List.map_cons, List.mem_cons]
+    refine ⟨?_, ?_⟩
+    · rw [this.1, h2, h3]
+    · rintro r (rfl | hr)
+      · exact h1
+      · exact this.2 r hr
+
+/-! ### `__reversed__` -/
+
+/-- keep the last occurrence of every element -/
+def keepLast : List K → List K
+  | [] => []
+  | k :: r => if k ∈ r then keepLast r else k :: keepLast r
+
+theorem dedupAux_concat (seen l : List K) (k : K) :
+    dedupAux seen (l ++ [k]) = if k ∈ seen ∨ k ∈ l then dedupAux seen l else dedupAux seen l ++ [k] := by
+  induction l generalizing seen with
+  | nil => simp [dedupAux]
+  | cons a r ih =>
+    simp only [List.cons_append, dedupAux]
+    split
+    · rw [ih]; grind
+    · rw [ih]; grind
+
+theorem dedup_concat (l : List K) (k : K) :
+    dedup (l ++ [k]) = if k ∈ l then dedup l else dedup l ++ [k] := by
+  simp [dedup, dedupAux_concat]
+
+theorem keepLast_eq (r : List K) : keepLast r = (dedup r.reverse).reverse := by
+  induction r with
+  | nil => simp [keepLast, dedup, dedupAux]
+  | cons k r ih =>
+    simp only [keepLast, List.reverse_cons, dedup_concat, List.mem_reverse]
+    split <;> simp [ih]
+
+theorem valsOf_reverse (k : K) (L : List (K × V)) : valsOf k L.reverse = (valsOf k L).reverse := by
+  simp [valsOf, List.filter_reverse]
+
+theorem reversedAux_spec (vals : List (K × List V)) (N : K → Nat) (lengths : List (K × Nat)) (R : List (K × V))
+    (hv : ∀ p ∈ R, ∃ vs, dget p.1 vals = some vs ∧ vs.length = N p.1)
+    (hl : ∀ k, (dget k lengths).getD 1 + (valsOf k R).length = N k + 1) :
+    OMD.reversedAux vals lengths R = .ok (keepLast (R.map (·.1))) := by
+  induction R generalizing lengths with
+  | nil => rfl
+  | cons p r ih =>
+    obtain ⟨vs, hvs, hlen⟩ := hv p (by simp)
+    have ih' := ih (dset p.1 ((dget p.1 lengths).getD 1 + 1) lengths) (fun q hq => hv q (by simp [hq])) (by
+      intro k
+      have := hl k
+      rw [dget_dset]
+      simp only [valsOf_cons] at this
+      split
+      · rename_i e; subst e; simp at this ⊢; omega
+      · rename_i e
+        have : ¬ p.1 = k := fun e' => e e'.symm
+        simp_all)
+    simp only [OMD.reversedAux, hvs, ih', List.map_cons, keepLast]
+    have h1 := hl p.1
+    simp only [valsOf_cons, ↓reduceIte, List.length_cons] at h1
+    congr 1
+    by_cases hm : p.1 ∈ r.map (·.1)
+    · have : valsOf p.1 r ≠ [] := (valsOf_ne_nil_iff p.1 r).mpr hm
+      have : 0 < (valsOf p.1 r).length := List.length_pos_iff.mpr this
+      simp only [hm, ↓reduceIte]
+      rw [if_neg]; omega
+    · have : valsOf p.1 r = [] := by
+        by_cases e : valsOf p.1 r = []
+        · exact e
+        · exact absurd ((valsOf_ne_nil_iff p.1 r).mp e) hm
+      simp only [hm, ↓reduceIte]
+      rw [if_pos]; rw [this] at h1; simp at h1; omega
+
+theorem reversed_spec {s : OMD K V} (h : Inv s) : s.reversed = .ok (Spec.reversed s.cells) := by
+  unfold OMD.reversed Spec.reversed Spec.keys
+  rw [reversedAux_spec s.vals (fun k => (valsOf k s.cells).length) [] s.cells.reverse]
+  · rw [keepLast_eq]; simp
+  · intro p hp
+    have hm : p.1 ∈ s.cells.map (·.1) := List.mem_map_of_mem (List.mem_reverse.mp hp)
+    have hne := (valsOf_ne_nil_iff p.1 s.cells).mpr hm
+    exact ⟨_, by rw [h.agree, ne?_of_ne hne], rfl⟩
+  · intro k; simp [dget, valsOf_reverse]; omega
+
+/-! ### equality -/
+
+theorem zipEq_iff [DecidableEq V] (a b : List (K × V)) : OMD.zipEq a b = true ↔ a = b := by
+  induction a generalizing b with
+  | nil => cases b <;> simp [OMD.zipEq]
+  | cons x xs ih =>
+    cases b with
+    | nil => simp [OMD.zipEq]
+    | cons y ys =>
+      simp only [OMD.zipEq, List.cons.injEq]
+      split
+      · rename_i hne
+        simp only [Bool.false_eq_true, false_iff, not_and]
+        intro e; subst e; simp at hne
+      · rename_i hne
+        rw [ih]
+        have : x = y := by
+          have h1 : x.1 = y.1 := by
+            by_cases e : x.1 = y.1
+            · exact e
+            · exact absurd (Or.inl e) hne
+          have h2 : x.2 = y.2 := by
+            by_cases e : x.2 = y.2
+            · exact e
+            · exact absurd (Or.inr e) hne
+          exact Prod.ext h1 h2
+        simp [this]
+
+theorem eqOMD_iff [DecidableEq V] {s t : OMD K V} (hs : Inv s) (ht : Inv t) :
+    s.eqOMD t = true ↔ s.cells = t.cells := by
+  unfold OMD.eqOMD
+  constructor
+  · intro h
+    split at h
+    · simp at h
+    · exact (zipEq_iff _ _).mp h
+  · intro e
+    have : t.len = s.len := by rw [len_spec hs, len_spec ht, e]
+    simp [this, (zipEq_iff _ _).mpr e]
+
+theorem eqMapLoop_spec [DecidableEq V] {s : OMD K V} (h : Inv s) (m : List (K × V)) (ks : List K)
+    (hk : ∀ k ∈ ks, valsOf k s.cells ≠ []) :
+    s.eqMapLoop m ks = .ok (ks.all fun k => decide (dget k m = Spec.last k s.cells)) := by
+  induction ks with
+  | nil => rfl
+  | cons k r ih =>
+    have ih' := ih (fun x hx => hk x (by simp [hx]))
+    obtain ⟨v, hv⟩ := getLast?_of_ne (hk k (by simp))
+    have hl : Spec.last k s.cells = some v := hv
+    simp only [OMD.eqMapLoop, List.all_cons, hl]
+    cases hm : dget k m with
+    | none => simp
+    | some mv =>
+      simp only [getitem_spec h, Spec.getitem, hl]
+      by_cases e : mv = v
+      · subst e; simp [ih']
+      · simp [e]
+
+theorem eqMapping_spec [DecidableEq V] {s : OMD K V} (h : Inv s) (m : List (K × V)) :
+    s.eqMapping m = .ok (Spec.eqMapping s.cells m) := by
+  unfold OMD.eqMapping Spec.eqMapping
+  rw [len_spec h]
+  split
+  · rename_i hne; simp [hne]
+  · rename_i he
+    simp only [ne_eq, Decidable.not_not] at he
+    rw [eqMapLoop_spec h m s.keys (fun k hk => (mem_keys _ _).mp hk)]
+    simp [he, keys_spec]
+
+/-- pigeonhole on duplicate-free lists -/
+theorem subset_of_nodup_length_le : ∀ (a b : List K), a.Nodup → a ⊆ b → b.length ≤ a.length → b ⊆ a := by
+  intro a
+  induction a with
+  | nil => intro b _ _ hl; cases b <;> simp_all
+  | cons x a ih =>
+    intro b hn hs hl
+    rw [List.nodup_cons] at hn
+    have hx : x ∈ b := hs (by simp)
+    have h1 : a ⊆ b.erase x := by
+      intro y hy
+      have : y ≠ x := fun e => hn.1 (e ▸ hy)
+      exact (List.mem_erase_of_ne this).mpr (hs (by simp [hy]))
+    have h2 : (b.erase x).length ≤ a.length := by
+      rw [List.length_erase_of_mem hx]; simp at hl; omega
+    have := ih (b.erase x) hn.2 h1 h2
+    intro y hy
+    by_cases e : y = x
+    · simp [e]
+    · exact List.mem_cons_of_mem _ (this ((List.mem_erase_of_ne e).mpr hy))
+
+theorem spec_eqMapping_iff [DecidableEq V] (L m : List (K × V)) (hm : (dkeys m).Nodup) :
+    Spec.eqMapping L m = true ↔ ∀ k, dget k m = Spec.last k L := by
+  unfold Spec.eqMapping Spec.len
+  simp only [Bool.and_eq_true, decide_eq_true_eq, List.all_eq_true]
+  constructor
+  · rintro ⟨hlen, hall⟩ k
+    by_cases hk : k ∈ Spec.keys L
+    · exact hall k hk
+    · have hsub : Spec.keys L ⊆ dkeys m := by
+        intro x hx
+        rw [← dget_isSome_iff, hall x hx, last_isSome_iff]
+        exact (mem_keys _ _).mp hx
+      have hrev := subset_of_nodup_length_le (Spec.keys L) (dkeys m) (nodup_dedup _) hsub
+        (by simp [dkeys, hlen])
+      have h1 : k ∉ dkeys m := fun hh => hk (hrev hh)
+      have h2 : valsOf k L = [] := by
+        by_cases e : valsOf k L = []
+        · exact e
+        · exact absurd ((mem_keys _ _).mpr e) hk
+      rw [(dget_none_iff k m).mpr h1]; simp [Spec.last, h2]
+  · intro h
+    refine ⟨?_, fun k _ => h k⟩
+    have hp : (dkeys m).Perm (Spec.keys L) :=
+      (List.perm_ext_iff_of_nodup hm (nodup_dedup _)).mpr (fun k => by
+        rw [← dget_isSome_iff, h k, last_isSome_iff]
+        exact (mem_keys L k).symm)
+    simpa [dkeys] using hp.length_eq
+
 end inv
 end C01
